@@ -6,7 +6,7 @@ import Logrange.Proofs.ChunkHist
 
 (1) one level-0 block is the flat list (`tree_eq_points_level0`);
 (2) on append-only input the whole tree evolves like the flat list and keeps its invariant (`tree_append_refines`);
-(3) look-ups through a well-formed tree are look-ups on the flat list (`tree_grEq_eq_points`, `tree_less_eq_points`);
+(3) look-ups through a well-formed tree are look-ups on the flat list (`tree_lookup_eq_points`, `tree_lookup_records`);
 (4) evaluated examples.
 -/
 namespace Logrange.ITree
@@ -217,5 +217,1026 @@ theorem tree_eq_points_level0 (maxRecs d : Nat) (recs : List Pt) (it : Iv) (hlen
   refine ⟨leaf_blockAdd maxRecs d recs it hlen, fun t => ⟨(leaf_grEq recs t).1, (leaf_grEq recs t).2, leaf_less recs t, ?_⟩⟩
   rw [← lessPos_none_iff, ← leaf_less]
   cases less (.leaf recs) t <;> simp
+
+/-! ## (2) the invariant of reachable trees and the append-only refinement -/
+
+/-- the upper points of the level-0 intervals in traversal order -/
+def p1s (t : T) : List Pt := (traversal t).map (·.p1)
+
+/-- no gap between neighbouring children: the last level-0 record of one is the first of the next -/
+def Contig : List T → Prop
+  | [] => True
+  | [_] => True
+  | a :: b :: r => lastRec a = firstRec b ∧ Contig (b :: r)
+
+/-- the invariant of a non-root subtree of level `d` -/
+def WFd (m : Nat) : Nat → T → Prop
+  | 0, .leaf recs => 2 ≤ recs.length ∧ recs.length ≤ m ∧ SortedTs recs
+  | d+1, .node l keys kids last =>
+      l = d+1 ∧ kids ≠ [] ∧ kids.length + 1 ≤ m ∧ (∀ k ∈ kids, WFd m d k) ∧
+      keys = kids.map (fun k => (firstRec k).ts) ∧
+      kids.getLast?.map lastRec = some last ∧
+      Contig kids ∧
+      (∀ k ∈ keys, k ≤ last.ts) ∧
+      SortedTs (firstRec (.node l keys kids last) :: p1s (.node l keys kids last))
+  | _, _ => False
+
+/-- reachable trees: the empty index, or a well-formed tree of its level -/
+def WF (m : Nat) (t : T) : Prop := t = .leaf [] ∨ WFd m (level t) t
+
+def AppendOnly (t : T) (it : Iv) : Prop := ∀ p ∈ points t, p.ts ≤ it.p0.ts
+
+/-! ### structural facts -/
+
+theorem pairs_p1 : ∀ (recs : List Pt), (pairs recs).map (·.p1) = recs.tail
+  | [] => rfl
+  | [_] => rfl
+  | a :: b :: r => by
+    have := pairs_p1 (b :: r)
+    simp [pairs, this]
+
+theorem p1s_leaf (recs : List Pt) : p1s (.leaf recs) = recs.tail := by
+  simp [p1s, traversal, pairs_p1]
+
+theorem traversalL_eq (kids : List T) : traversalL kids = kids.flatMap traversal := by
+  induction kids with
+  | nil => simp [traversalL]
+  | cons k ks ih => simp [traversalL, ih]
+
+theorem p1s_node (l : Nat) (keys : List Int) (kids : List T) (last : Pt) :
+    p1s (.node l keys kids last) = kids.flatMap p1s := by
+  simp [p1s, traversal, traversalL_eq, List.map_flatMap]
+  rfl
+
+theorem firstRecL_snoc (ks : List T) (k k' : T) (h : firstRec k' = firstRec k) :
+    firstRecL (ks ++ [k']) = firstRecL (ks ++ [k]) := by
+  cases ks with
+  | nil => simp [firstRecL, h]
+  | cons a r => simp [firstRecL]
+
+theorem firstRecL_snoc2 (ks : List T) (k c : T) : firstRecL (ks ++ [k] ++ [c]) = firstRecL (ks ++ [k]) := by
+  cases ks with
+  | nil => simp [firstRecL]
+  | cons a r => simp [firstRecL]
+
+theorem lastRecL_snoc (ks : List T) (k : T) : lastRecL (ks ++ [k]) ks.length = lastRec k := by
+  induction ks with
+  | nil => simp [lastRecL]
+  | cons a r ih => simpa [lastRecL] using ih
+
+theorem contig_replace_last : ∀ (ks : List T) (k k' : T), Contig (ks ++ [k]) → firstRec k' = firstRec k → Contig (ks ++ [k'])
+  | [], _, _, _, _ => by simp [Contig]
+  | [a], k, k', h, e => by
+    simp [Contig] at h ⊢; rw [e]; exact h
+  | a :: b :: r, k, k', h, e => by
+    have := contig_replace_last (b :: r) k k'
+    simp [Contig] at h this ⊢
+    exact ⟨h.1, this h.2 e⟩
+
+theorem contig_snoc : ∀ (ks : List T) (k c : T), Contig (ks ++ [k]) → lastRec k = firstRec c → Contig (ks ++ [k] ++ [c])
+  | [], _, _, _, e => by simp [Contig, e]
+  | [a], k, c, h, e => by
+    simp [Contig] at h ⊢; exact ⟨h, e⟩
+  | a :: b :: r, k, c, h, e => by
+    have := contig_snoc (b :: r) k c
+    simp [Contig] at h this ⊢
+    exact ⟨h.1, this h.2 e⟩
+
+theorem exists_snoc {α : Type} (l : List α) (h : l ≠ []) : ∃ ks k, l = ks ++ [k] :=
+  ⟨l.dropLast, l.getLast h, (List.dropLast_concat_getLast h).symm⟩
+
+
+/-! ### what the invariant gives -/
+
+theorem wfd_level (m : Nat) : ∀ (d : Nat) (t : T), WFd m d t → level t = d
+  | 0, .leaf _, _ => rfl
+  | 0, .node .., h => by simp [WFd] at h
+  | d+1, .leaf _, h => by simp [WFd] at h
+  | d+1, .node l keys kids last, h => by simp only [WFd] at h; simp [level, h.1]
+
+theorem wfd_trav (m : Nat) : ∀ (d : Nat) (t : T), WFd m d t → ∃ iv r, traversal t = iv :: r ∧ iv.p0 = firstRec t
+  | 0, .leaf recs, h => by
+    simp only [WFd] at h
+    match recs, h with
+    | a :: b :: r, _ => exact ⟨⟨a, b⟩, pairs (b :: r), by simp [traversal, pairs], by simp [firstRec]⟩
+  | 0, .node .., h => by simp [WFd] at h
+  | d+1, .leaf _, h => by simp [WFd] at h
+  | d+1, .node l keys kids last, h => by
+    simp only [WFd] at h
+    obtain ⟨_, hne, _, hk, hkeys, _⟩ := h
+    match kids, hne with
+    | k :: ks, _ =>
+      obtain ⟨iv, r, e1, e2⟩ := wfd_trav m d k (hk k (by simp))
+      refine ⟨iv, r ++ traversalL ks, by simp [traversal, traversalL, e1], ?_⟩
+      rw [e2, hkeys]; simp [firstRec, firstRecL]
+
+theorem wfd_points (m d : Nat) (t : T) (h : WFd m d t) : points t = firstRec t :: p1s t := by
+  obtain ⟨iv, r, e1, e2⟩ := wfd_trav m d t h
+  simp [points, p1s, e1, e2]
+
+theorem tail_getLast? : ∀ (recs : List Pt), 2 ≤ recs.length → recs.tail.getLast? = some (recs.getLastD zeroPt)
+  | a :: b :: r, _ => by
+    have : (b :: r).getLast? = some ((b :: r).getLast (by simp)) := List.getLast?_eq_some_getLast (by simp)
+    simp [List.getLastD_eq_getLast?, List.getLast?_cons_cons, this]
+
+theorem wfd_p1s_last (m : Nat) : ∀ (d : Nat) (t : T), WFd m d t → (p1s t).getLast? = some (lastRec t)
+  | 0, .leaf recs, h => by
+    simp only [WFd] at h
+    rw [p1s_leaf, tail_getLast? recs h.1]; rfl
+  | 0, .node .., h => by simp [WFd] at h
+  | d+1, .leaf _, h => by simp [WFd] at h
+  | d+1, .node l keys kids last, h => by
+    simp only [WFd] at h
+    obtain ⟨_, hne, _, hk, hkeys, _⟩ := h
+    obtain ⟨ks, k, rfl⟩ := exists_snoc kids hne
+    have ih := wfd_p1s_last m d k (hk k (by simp))
+    have hl : keys.length - 1 = ks.length := by rw [hkeys]; simp
+    have hkn : keys ≠ [] := by rw [hkeys]; simp
+    rw [p1s_node]
+    simp only [List.flatMap_append, List.flatMap_cons, List.flatMap_nil, List.append_nil, List.getLast?_append, ih]
+    match keys, hkn with
+    | _ :: _, _ => simp only [lastRec]; rw [hl, lastRecL_snoc]; simp
+
+theorem wfd_lastD (m d : Nat) (t : T) (h : WFd m d t) : Points.lastD (firstRec t :: p1s t) = lastRec t := by
+  have := wfd_p1s_last m d t h
+  cases hp : p1s t with
+  | nil => rw [hp] at this; simp at this
+  | cons a r =>
+    rw [hp] at this
+    simp only [Points.lastD, List.getLastD_eq_getLast?, List.getLast?_cons_cons, this]; rfl
+
+theorem wfd_last_mem (m d : Nat) (t : T) (h : WFd m d t) : lastRec t ∈ points t := by
+  rw [wfd_points m d t h, ← wfd_lastD m d t h]
+  exact lastD_mem _ (by simp)
+
+theorem sorted_head_le : ∀ (l : List Pt) (a : Pt), SortedTs (a :: l) → ∀ p ∈ l, a.ts ≤ p.ts
+  | [], _, _, p, hp => by simp at hp
+  | b :: r, a, hs, p, hp => by
+    have h1 : a.ts ≤ b.ts := hs.1
+    cases hp with
+    | head => exact h1
+    | tail _ hp' => exact Int.le_trans h1 (sorted_head_le r b hs.2 p hp')
+
+theorem wfd_sorted (m : Nat) : ∀ (d : Nat) (t : T), WFd m d t → SortedTs (firstRec t :: p1s t)
+  | 0, .leaf recs, h => by
+    simp only [WFd] at h
+    match recs, h with
+    | a :: b :: r, h => simpa [firstRec, p1s_leaf] using h.2.2
+  | 0, .node .., h => by simp [WFd] at h
+  | d+1, .leaf _, h => by simp [WFd] at h
+  | d+1, .node l keys kids last, h => by
+    simp only [WFd] at h
+    exact h.2.2.2.2.2.2.2.2
+
+theorem wfd_first_le_last (m d : Nat) (t : T) (h : WFd m d t) : (firstRec t).ts ≤ (lastRec t).ts := by
+  have hs := wfd_sorted m d t h
+  have hl := wfd_p1s_last m d t h
+  exact sorted_head_le _ _ hs _ (List.mem_of_getLast? hl)
+
+theorem wfd_tbi (m : Nat) : ∀ (d : Nat) (t : T), WFd m d t → theBlockInterval t = ⟨⟨(firstRec t).ts, 0⟩, lastRec t⟩
+  | 0, .leaf recs, _ => rfl
+  | 0, .node .., h => by simp [WFd] at h
+  | d+1, .leaf _, h => by simp [WFd] at h
+  | d+1, .node l keys kids last, h => by
+    simp only [WFd] at h
+    obtain ⟨_, hne, _, hk, hkeys, hlast, _⟩ := h
+    obtain ⟨ks, k, rfl⟩ := exists_snoc kids hne
+    have hl : keys.length - 1 = ks.length := by rw [hkeys]; simp
+    have hkn : keys ≠ [] := by rw [hkeys]; simp
+    have hlast' : last = lastRec k := by simpa using hlast.symm
+    match keys, hkn with
+    | k0 :: kr, _ =>
+      simp only [theBlockInterval, firstRec, lastRec, List.headD_cons]
+      rw [hl, lastRecL_snoc, hlast']
+      have : k0 = (firstRecL (ks ++ [k])).ts := by
+        cases ks with
+        | nil => simp at hkeys; simp [firstRecL, hkeys.1]
+        | cons a r => simp at hkeys; simp [firstRecL, hkeys.1]
+      rw [this]
+
+
+/-! ### one upper-level block, computed -/
+
+theorem recsOf_node (l : Nat) (keys : List Int) (kids : List T) (last : Pt) (hk : keys ≠ []) :
+    recsOf (.node l keys kids last) = keys.map (fun k => (⟨k, 0⟩ : Pt)) ++ [last] := by
+  match keys, hk with
+  | _ :: _, _ => rfl
+
+theorem records_node (l : Nat) (keys : List Int) (kids : List T) (last : Pt) (hk : keys ≠ []) :
+    records (.node l keys kids last) = keys.length + 1 := by
+  simp [records, recsOf_node l keys kids last hk]
+
+theorem intervals_node (l : Nat) (keys : List Int) (kids : List T) (last : Pt) (hk : keys ≠ []) :
+    intervals (.node l keys kids last) = keys.length := by
+  have hl : keys.length ≠ 0 := by simpa using hk
+  unfold intervals
+  rw [records_node l keys kids last hk]
+  have : ¬ keys.length + 1 ≤ 1 := by omega
+  rw [if_neg this]; omega
+
+theorem cntLE_node_all (l : Nat) (keys : List Int) (kids : List T) (last : Pt) (hk : keys ≠ []) (ts : Int)
+    (h1 : ∀ k ∈ keys, k ≤ ts) (h2 : last.ts ≤ ts) : ITree.cntLE (.node l keys kids last) ts = keys.length + 1 := by
+  unfold ITree.cntLE
+  rw [recsOf_node l keys kids last hk, Logrange.ChunkHist.cntLE_eq_length_of_all_le]
+  · simp
+  · intro p hp
+    simp at hp
+    rcases hp with ⟨k, hk', rfl⟩ | rfl
+    · exact h1 k hk'
+    · exact h2
+
+theorem insIdx_node_all (l : Nat) (keys : List Int) (kids : List T) (last : Pt) (hk : keys ≠ []) (ts : Int)
+    (h1 : ∀ k ∈ keys, k ≤ ts) (h2 : last.ts ≤ ts) :
+    findIntervalInsertIdx (.node l keys kids last) ts = (keys.length : Int) - 1 := by
+  unfold findIntervalInsertIdx
+  simp only [records_node l keys kids last hk, cntLE_node_all l keys kids last hk ts h1 h2]
+  simp; omega
+
+theorem blockAdd_node (m d l : Nat) (keys : List Int) (kids : List T) (last : Pt) (it : Iv) :
+    blockAdd m (d+1) (.node l keys kids last) it =
+      upperLoop m (blockAdd m d) (m + 1)
+        (removeLoop ((intervals (.node l keys kids last) : Int) - (findIntervalInsertIdx (.node l keys kids last) it.p0.ts + 1)).toNat
+          (.node l keys kids last)) it
+        (findIntervalInsertIdx (.node l keys kids last) it.p0.ts).toNat
+        (intervals (removeLoop ((intervals (.node l keys kids last) : Int) - (findIntervalInsertIdx (.node l keys kids last) it.p0.ts + 1)).toNat
+          (.node l keys kids last)) == 0) := rfl
+
+theorem upperLoop_old_ok (m : Nat) (addKid : T → Iv → Res) (n : Nat) (b : T) (it : Iv) (i : Nat) (lb' : T) (lr : Pt)
+    (h : addKid (kidAt b i) it = (lb', lr, none)) :
+    upperLoop m addKid (n+1) b it i false = (setLastInterval b (theBlockInterval lb') lb', lr, none) := by
+  simp [upperLoop, h]
+
+theorem upperLoop_new_ok (m : Nat) (addKid : T → Iv → Res) (n : Nat) (b : T) (it : Iv) (i : Nat) (lb' : T) (lr : Pt)
+    (h : addKid (emptyBlock (level b - 1)) it = (lb', lr, none)) :
+    upperLoop m addKid (n+1) b it i true = (setLastInterval b (theBlockInterval lb') lb', lr, none) := by
+  simp [upperLoop, h]
+
+theorem upperLoop_old_full_full (m : Nat) (addKid : T → Iv → Res) (n : Nat) (b : T) (it : Iv) (i : Nat) (lb' : T) (lr : Pt)
+    (h : addKid (kidAt b i) it = (lb', lr, some .full)) (b2 : T) (r2 : Pt) (e : Err)
+    (h2 : appendInterval m (setKid b i lb') it = (b2, r2, some e)) :
+    upperLoop m addKid (n+1) b it i false = (setKid b i lb', lr, some .full) := by
+  simp [upperLoop, h, h2]
+
+theorem upperLoop_old_full_ok (m : Nat) (addKid : T → Iv → Res) (n : Nat) (b : T) (it : Iv) (i : Nat) (lb' : T) (lr : Pt)
+    (h : addKid (kidAt b i) it = (lb', lr, some .full)) (b2 : T) (r2 : Pt)
+    (h2 : appendInterval m (setKid b i lb') it = (b2, r2, none)) :
+    upperLoop m addKid (n+1) b it i false = upperLoop m addKid n b2 { it with p0 := lr } i true := by
+  simp [upperLoop, h, h2]
+
+theorem appendInterval_node_full (m l : Nat) (keys : List Int) (kids : List T) (last : Pt) (it : Iv) (hk : keys ≠ [])
+    (hm : keys.length + 1 = m) :
+    appendInterval m (.node l keys kids last) it = (.node l keys kids last, last, some .full) := by
+  unfold appendInterval
+  simp [records_node l keys kids last hk, hm, recsOf_node l keys kids last hk]
+
+theorem appendInterval_node_ok (m l : Nat) (keys : List Int) (kids : List T) (last : Pt) (it : Iv) (hk : keys ≠ [])
+    (hm : keys.length + 1 ≠ m) :
+    appendInterval m (.node l keys kids last) it = (.node l (keys ++ [last.ts]) kids it.p1, it.p1, none) := by
+  unfold appendInterval
+  simp [records_node l keys kids last hk, hm]
+
+theorem setLastInterval_node (l : Nat) (keys : List Int) (kids : List T) (last : Pt) (it : Iv) (kid : T) (hk : keys ≠ []) :
+    setLastInterval (.node l keys kids last) it kid =
+      .node l (keys.dropLast ++ [it.p0.ts]) (kids.take (keys.length - 1) ++ [kid]) it.p1 := by
+  match keys, hk with
+  | _ :: _, _ => rfl
+
+
+/-! ### appending -/
+
+theorem wfd_single (m d : Nat) (hm : 2 ≤ m) (c : T) (h : WFd m d c) :
+    WFd m (d+1) (.node (d+1) [(firstRec c).ts] [c] (lastRec c)) := by
+  simp only [WFd]
+  refine ⟨trivial, by simp, by simpa using hm, by simpa using h, by simp, by simp, by simp [Contig], ?_, ?_⟩
+  · intro k hk
+    simp at hk; subst hk
+    exact wfd_first_le_last m d c h
+  · have := wfd_sorted m d c h
+    simpa [firstRec, firstRecL, p1s_node] using this
+
+theorem new_chain (m : Nat) (hm : 2 ≤ m) : ∀ (d : Nat) (it : Iv), it.p0.ts ≤ it.p1.ts →
+    ∃ c, blockAdd m (d+1) (emptyBlock d) it = (c, it.p1, none) ∧ WFd m d c ∧ p1s c = [it.p1] ∧
+      firstRec c = it.p0 ∧ lastRec c = it.p1
+  | 0, it, h01 => by
+    refine ⟨.leaf [it.p0, it.p1], ?_, ?_, ?_, rfl, rfl⟩
+    · have := leaf_blockAdd m 0 [] it (by simp)
+      have hm0 : ¬ (0 = m) := by omega
+      simpa [emptyBlock, hm0, Points.add, Points.lastD] using this
+    · simp only [WFd]
+      exact ⟨by simp, by simpa using hm, ⟨h01, trivial⟩⟩
+    · simp [p1s_leaf]
+  | d+1, it, h01 => by
+    obtain ⟨c, hc, hwf, hp, hf, hl⟩ := new_chain m hm d it h01
+    have he : emptyBlock (d+1) = .node (d+1) [] [] zeroPt := by simp [emptyBlock]
+    have hI : findIntervalInsertIdx (.node (d+1) [] [] zeroPt) it.p0.ts = 0 := by
+      simp [findIntervalInsertIdx, records, recsOf]
+    have hints : intervals (.node (d+1) [] [] zeroPt) = 0 := by
+      simp [intervals, records, recsOf]
+    have hstep : blockAdd m (d+1+1) (.node (d+1) [] [] zeroPt) it =
+        (setLastInterval (.node (d+1) [] [] zeroPt) (theBlockInterval c) c, it.p1, none) := by
+      rw [blockAdd_node, hI, hints]
+      simp only [Int.toNat_zero]
+      have : (((0 : Nat) : Int) - (0 + 1)).toNat = 0 := by omega
+      rw [this]
+      simp only [removeLoop, hints, beq_self_eq_true]
+      exact upperLoop_new_ok m (blockAdd m (d+1)) m _ it 0 c it.p1 (by simpa [level] using hc)
+    refine ⟨.node (d+1) [(firstRec c).ts] [c] (lastRec c), ?_, wfd_single m d hm c hwf, ?_, ?_, ?_⟩
+    · rw [he, hstep, wfd_tbi m d c hwf]; rfl
+    · simp [p1s_node, hp]
+    · simp [firstRec, firstRecL, hf]
+    · simp [lastRec, lastRecL, hl]
+
+
+theorem sorted_le_last : ∀ (l : List Pt), SortedTs l → ∀ p ∈ l, p.ts ≤ (Points.lastD l).ts
+  | [], _, p, hp => by simp at hp
+  | [a], _, p, hp => by simp at hp; subst hp; simp [Points.lastD]
+  | a :: b :: r, hs, p, hp => by
+    rw [lastD_cons_cons]
+    have ih := sorted_le_last (b :: r) hs.2
+    cases hp with
+    | head => exact Int.le_trans hs.1 (ih b (by simp))
+    | tail _ hp' => exact ih p hp'
+
+theorem add_append_case (recs : List Pt) (it : Iv) (hne : recs ≠ []) (hc : Points.cntLE recs it.p0.ts = recs.length) :
+    Points.add recs it = recs ++ [it.p1] := by
+  cases recs with
+  | nil => exact absurd rfl hne
+  | cons a r => simp only [Points.add, hc, if_true]
+
+theorem set_snoc (ks : List T) (k k' : T) : (ks ++ [k]).set ks.length k' = ks ++ [k'] := by
+  induction ks with
+  | nil => rfl
+  | cons a r ih => simp [ih]
+
+theorem lastRec_node_snoc (l : Nat) (keys : List Int) (ks : List T) (k : T) (la : Pt) (h : keys.length = ks.length + 1) :
+    lastRec (.node l keys (ks ++ [k]) la) = lastRec k := by
+  match keys, h with
+  | x :: r, h =>
+    simp only [lastRec]
+    have : (x :: r).length - 1 = ks.length := by simp at h ⊢; omega
+    rw [this]; exact lastRecL_snoc ks k
+
+theorem blockAdd_append (m : Nat) (hm : 2 ≤ m) : ∀ (d : Nat) (t : T) (it : Iv), WFd m d t →
+    (lastRec t).ts ≤ it.p0.ts → it.p0.ts ≤ it.p1.ts →
+    (∃ t', blockAdd m (d+1) t it = (t', it.p1, none) ∧ WFd m d t' ∧ p1s t' = p1s t ++ [it.p1] ∧
+        firstRec t' = firstRec t ∧ lastRec t' = it.p1) ∨
+    (blockAdd m (d+1) t it = (t, lastRec t, some .full) ∧ records t = m)
+  | 0, .leaf recs, it, h, hle, h01 => by
+    simp only [WFd] at h
+    obtain ⟨h2, hlm, hs⟩ := h
+    have hne : recs ≠ [] := by intro e; subst e; simp at h2
+    have hle' : (Points.lastD recs).ts ≤ it.p0.ts := hle
+    have hc : Points.cntLE recs it.p0.ts = recs.length :=
+      Logrange.ChunkHist.cntLE_eq_length_of_all_le _ _ (fun p hp => Int.le_trans (sorted_le_last recs hs p hp) hle')
+    have hb := leaf_blockAdd m 0 recs it (by omega)
+    by_cases hfull : recs.length = m
+    · right
+      rw [hb, if_pos ⟨hfull, hc⟩]
+      exact ⟨rfl, hfull⟩
+    · left
+      have : ¬ (recs.length = m ∧ Points.cntLE recs it.p0.ts = recs.length) := fun h => hfull h.1
+      rw [hb, if_neg this, add_append_case recs it hne hc, lastD_snoc]
+      refine ⟨_, rfl, ?_, ?_, ?_, ?_⟩
+      · simp only [WFd]
+        refine ⟨by simp; omega, by simp; omega, sortedTs_snoc it.p1 recs hne hs (Int.le_trans hle' h01)⟩
+      · rw [p1s_leaf, p1s_leaf, List.tail_append_of_ne_nil hne]
+      · cases recs with
+        | nil => exact absurd rfl hne
+        | cons a r => rfl
+      · simp [lastRec]
+  | 0, .node .., _, h, _, _ => by simp [WFd] at h
+  | d+1, .leaf _, _, h, _, _ => by simp [WFd] at h
+  | d+1, .node l keys kids last, it, h, hle, h01 => by
+    have hWF := h
+    simp only [WFd] at h
+    obtain ⟨hl, hne, hlen, hk, hkeys, hlast, hcon, hkle, hsort⟩ := h
+    obtain ⟨ks, k, rfl⟩ := exists_snoc kids hne
+    subst hl
+    have hkn : keys ≠ [] := by rw [hkeys]; simp
+    have hkl : keys.length = ks.length + 1 := by rw [hkeys]; simp
+    have hkl' : keys.length - 1 = ks.length := by omega
+    have hlast' : last = lastRec k := by simpa using hlast.symm
+    have hlr : ∀ (kk : T) (la : Pt), lastRec (.node (d+1) keys (ks ++ [kk]) la) = lastRec kk := by
+      intro kk la
+      match keys, hkn, hkl' with
+      | _ :: _, _, hkl' => simp only [lastRec]; rw [hkl']; exact lastRecL_snoc ks kk
+    have hfr : ∀ (kk : T) (la : Pt), firstRec kk = firstRec k →
+        firstRec (.node (d+1) keys (ks ++ [kk]) la) = firstRec (.node (d+1) keys (ks ++ [k]) last) := by
+      intro kk la e
+      match keys, hkn with
+      | _ :: _, _ => simp only [firstRec]; exact firstRecL_snoc ks k kk e
+    rw [hlr k last] at hle ⊢
+    have hle' : last.ts ≤ it.p0.ts := by rw [hlast']; exact hle
+    have hkeys_le : ∀ x ∈ keys, x ≤ it.p0.ts := fun x hx => Int.le_trans (hkle x hx) hle'
+    have hI := insIdx_node_all (d+1) keys (ks ++ [k]) last hkn it.p0.ts hkeys_le hle'
+    have hints := intervals_node (d+1) keys (ks ++ [k]) last hkn
+    have hstep : blockAdd m (d+1+1) (.node (d+1) keys (ks ++ [k]) last) it =
+        upperLoop m (blockAdd m (d+1)) (m+1) (.node (d+1) keys (ks ++ [k]) last) it ks.length false := by
+      rw [blockAdd_node, hI, hints]
+      have e1 : ((keys.length : Int) - ((keys.length : Int) - 1 + 1)).toNat = 0 := by omega
+      have e2 : ((keys.length : Int) - 1).toNat = ks.length := by omega
+      have e3 : (keys.length == 0) = false := by simp; omega
+      rw [e1, e2]
+      simp only [removeLoop, hints, e3]
+    have hkid : kidAt (.node (d+1) keys (ks ++ [k]) last) ks.length = k := by
+      simp [kidAt]
+    have hkwf : WFd m d k := hk k (by simp)
+    rcases blockAdd_append m hm d k it hkwf hle h01 with ⟨k', hk', hwf', hp', hf', hl'⟩ | ⟨hkf, hrec⟩
+    · left
+      have hres := upperLoop_old_ok m (blockAdd m (d+1)) m (.node (d+1) keys (ks ++ [k]) last) it ks.length k' it.p1
+        (by rw [hkid]; exact hk')
+      rw [wfd_tbi m d k' hwf', setLastInterval_node _ _ _ _ _ _ hkn] at hres
+      have ek : keys.dropLast ++ [(firstRec k').ts] = keys := by
+        rw [hf', hkeys]; simp
+      have ekid : List.take (keys.length - 1) (ks ++ [k]) ++ [k'] = ks ++ [k'] := by
+        rw [hkl']; simp
+      simp only [ek, ekid, hl'] at hres
+      refine ⟨.node (d+1) keys (ks ++ [k']) it.p1, by rw [hstep, hres], ?_, ?_, hfr k' it.p1 hf', ?_⟩
+      · have hp1s : p1s (.node (d+1) keys (ks ++ [k']) it.p1) = p1s (.node (d+1) keys (ks ++ [k]) last) ++ [it.p1] := by
+          simp [p1s_node, hp']
+        simp only [WFd]
+        refine ⟨trivial, by simp, by simpa using hlen, ?_, ?_, by simp [hl'], contig_replace_last ks k k' hcon hf', ?_, ?_⟩
+        · intro x hx
+          simp at hx
+          rcases hx with hx | rfl
+          · exact hk x (by simp [hx])
+          · exact hwf'
+        · rw [hkeys]; simp [hf']
+        · intro x hx
+          exact Int.le_trans (hkeys_le x hx) h01
+        · rw [hp1s, hfr k' it.p1 hf']
+          have := sortedTs_snoc it.p1 _ (by simp) hsort
+            (by rw [wfd_lastD m (d+1) _ hWF, hlr k last]; exact Int.le_trans hle h01)
+          simpa using this
+      · simp [p1s_node, hp']
+      · rw [hlr k' it.p1, hl']
+    · have hsk : setKid (.node (d+1) keys (ks ++ [k]) last) ks.length k = .node (d+1) keys (ks ++ [k]) last := by
+        simp [setKid]
+      by_cases hm' : keys.length + 1 = m
+      · right
+        have hap := appendInterval_node_full m (d+1) keys (ks ++ [k]) last it hkn hm'
+        have hres := upperLoop_old_full_full m (blockAdd m (d+1)) m (.node (d+1) keys (ks ++ [k]) last) it ks.length k
+          (lastRec k) (by rw [hkid]; exact hkf) _ _ _ (by rw [hsk]; exact hap)
+        rw [hsk] at hres
+        exact ⟨by rw [hstep, hres], by rw [records_node _ _ _ _ hkn]; exact hm'⟩
+      · left
+        have hap := appendInterval_node_ok m (d+1) keys (ks ++ [k]) last it hkn hm'
+        have hres := upperLoop_old_full_ok m (blockAdd m (d+1)) m (.node (d+1) keys (ks ++ [k]) last) it ks.length k
+          (lastRec k) (by rw [hkid]; exact hkf) _ _ (by rw [hsk]; exact hap)
+        have hm1 : m - 1 + 1 = m := by omega
+        have h01' : ({ it with p0 := lastRec k } : Iv).p0.ts ≤ ({ it with p0 := lastRec k } : Iv).p1.ts :=
+          Int.le_trans hle h01
+        obtain ⟨c, hc, hcwf, hcp, hcf, hcl⟩ := new_chain m hm d { it with p0 := lastRec k } h01'
+        have hkn2 : keys ++ [last.ts] ≠ [] := by simp
+        have hres2 := upperLoop_new_ok m (blockAdd m (d+1)) (m - 1) (.node (d+1) (keys ++ [last.ts]) (ks ++ [k]) it.p1)
+          { it with p0 := lastRec k } ks.length c it.p1 (by simpa [level] using hc)
+        rw [wfd_tbi m d c hcwf, setLastInterval_node _ _ _ _ _ _ hkn2] at hres2
+        have ekid : List.take ((keys ++ [last.ts]).length - 1) (ks ++ [k]) ++ [c] = ks ++ [k] ++ [c] := by
+          rw [List.take_of_length_le (by simp [hkl])]
+        simp only [List.dropLast_concat, ekid, hcf, hcl] at hres2
+        rw [hm1] at hres2
+        refine ⟨.node (d+1) (keys ++ [(lastRec k).ts]) (ks ++ [k] ++ [c]) it.p1, ?_, ?_, ?_, ?_, ?_⟩
+        · rw [hstep, hres, hres2]
+        · have hp1s : p1s (.node (d+1) (keys ++ [(lastRec k).ts]) (ks ++ [k] ++ [c]) it.p1)
+              = p1s (.node (d+1) keys (ks ++ [k]) last) ++ [it.p1] := by
+            simp [p1s_node, hcp]
+          have hfr2 : firstRec (.node (d+1) (keys ++ [(lastRec k).ts]) (ks ++ [k] ++ [c]) it.p1)
+              = firstRec (.node (d+1) keys (ks ++ [k]) last) := by
+            match keys, hkn with
+            | _ :: _, _ => simp only [firstRec, List.cons_append]; exact firstRecL_snoc2 ks k c
+          simp only [WFd]
+          refine ⟨trivial, by simp, ?_, ?_, ?_, by simp [hcl], contig_snoc ks k c hcon (by rw [hcf]), ?_, ?_⟩
+          · have : keys.length + 1 ≤ m := by simpa [hkl] using hlen
+            simp; omega
+          · intro x hx
+            simp at hx
+            rcases hx with hx | rfl | rfl
+            · exact hk x (by simp [hx])
+            · exact hkwf
+            · exact hcwf
+          · rw [hkeys]; simp [hcf]
+          · intro x hx
+            simp at hx
+            rcases hx with hx | rfl
+            · exact Int.le_trans (hkeys_le x hx) h01
+            · exact Int.le_trans hle h01
+          · rw [hp1s, hfr2]
+            have := sortedTs_snoc it.p1 _ (by simp) hsort
+              (by rw [wfd_lastD m (d+1) _ hWF, hlr k last]; exact Int.le_trans hle h01)
+            simpa using this
+        · simp [p1s_node, hcp]
+        · match keys, hkn with
+          | _ :: _, _ => simp only [firstRec, List.cons_append]; exact firstRecL_snoc2 ks k c
+        · rw [lastRec_node_snoc _ _ (ks ++ [k]) c _ (by simp [hkl]), hcl]
+
+
+/-! ### `prune` and the top level -/
+
+theorem prune_wfd (m : Nat) : ∀ (d : Nat) (t : T), WFd m d t →
+    ∃ d', WFd m d' (prune t) ∧ firstRec (prune t) = firstRec t ∧ p1s (prune t) = p1s t
+  | 0, .leaf recs, h => ⟨0, by simpa [prune] using h, by simp [prune], by simp [prune]⟩
+  | 0, .node .., h => by simp [WFd] at h
+  | d+1, .leaf _, h => by simp [WFd] at h
+  | d+1, .node l keys kids last, h => by
+    by_cases hi : intervals (.node l keys kids last) > 1
+    · exact ⟨d+1, by simpa [prune, hi] using h, by simp [prune, hi], by simp [prune, hi]⟩
+    · have hWF := h
+      simp only [WFd] at h
+      obtain ⟨_, hne, _, hk, hkeys, _⟩ := h
+      have hkn : keys ≠ [] := by
+        rw [hkeys]; simpa using hne
+      rw [intervals_node l keys kids last hkn] at hi
+      have hkl : kids.length = keys.length := by rw [hkeys]; simp
+      match kids, hne, hkl with
+      | [k], _, _ =>
+        obtain ⟨d', h1, h2, h3⟩ := prune_wfd m d k (hk k (by simp))
+        have hp : prune (.node l keys [k] last) = prune k := by
+          rw [prune]
+          have : ¬ intervals (.node l keys [k] last) > 1 := by
+            rw [intervals_node l keys [k] last hkn]; exact hi
+          rw [if_neg this]; rfl
+        refine ⟨d', by rw [hp]; exact h1, ?_, ?_⟩
+        · rw [hp, h2]
+          match keys, hkn with
+          | _ :: _, _ => simp [firstRec, firstRecL]
+        · rw [hp, h3]; simp [p1s_node]
+      | _ :: _ :: _, _, hkl => simp at hkl; omega
+
+theorem addLoop_ok (m n d : Nat) (b b' : T) (it : Iv) (lr : Pt)
+    (h : blockAdd m (level b + 1) b it = (b', lr, none)) (hwf : WFd m d b') :
+    ∃ t', addLoop m (n+1) b it = some t' ∧ WF m t' ∧ points t' = firstRec b' :: p1s b' := by
+  obtain ⟨d', h1, h2, h3⟩ := prune_wfd m d b' hwf
+  refine ⟨prune b', by simp [addLoop, h], Or.inr (by rw [wfd_level m d' _ h1]; exact h1), ?_⟩
+  rw [wfd_points m d' _ h1, h2, h3]
+
+/-- **(2)** appending to a well-formed tree never fails, keeps the invariant, and the point list of the tree grows
+exactly like the flat list in the append case of `Points.add`. -/
+theorem tree_append_refines (maxRecs : Nat) (hm : 3 ≤ maxRecs) (t : T) (it : Iv)
+    (hwf : WF maxRecs t) (hao : AppendOnly t it) (h01 : it.p0.ts ≤ it.p1.ts) :
+    ∃ t', add maxRecs t it = some t' ∧ WF maxRecs t' ∧
+      points t' = (if points t = [] then [it.p0, it.p1] else points t ++ [it.p1]) := by
+  have hm2 : 2 ≤ maxRecs := by omega
+  rcases hwf with rfl | hwf
+  · obtain ⟨c, hc, hcwf, hcp, hcf, _⟩ := new_chain maxRecs hm2 0 it h01
+    obtain ⟨t', h1, h2, h3⟩ := addLoop_ok maxRecs 7 0 (.leaf []) c it it.p1 hc hcwf
+    refine ⟨t', h1, h2, ?_⟩
+    rw [h3, hcp, hcf]; rfl
+  · generalize hd : level t = d at hwf
+    have hpts := wfd_points maxRecs d t hwf
+    have hle : (lastRec t).ts ≤ it.p0.ts := hao _ (wfd_last_mem maxRecs d t hwf)
+    have hne : ¬ points t = [] := by rw [hpts]; simp
+    rw [if_neg hne, hpts]
+    rcases blockAdd_append maxRecs hm2 d t it hwf hle h01 with ⟨t1, hb, hwf1, hp1, hf1, _⟩ | ⟨hb, hrec⟩
+    · obtain ⟨t', h1, h2, h3⟩ := addLoop_ok maxRecs 7 d t t1 it it.p1 (by rw [hd]; exact hb) hwf1
+      exact ⟨t', h1, h2, by rw [h3, hf1, hp1]; rfl⟩
+    · -- a new root above the full tree
+      have hroot : makeRootFor t = .node (d+1) [(firstRec t).ts] [t] (lastRec t) := by
+        unfold makeRootFor
+        rw [wfd_tbi maxRecs d t hwf, hd]; rfl
+      have hrwf := wfd_single maxRecs d hm2 t hwf
+      have hlr : lastRec (.node (d+1) [(firstRec t).ts] [t] (lastRec t)) = lastRec t := by
+        simp [lastRec, lastRecL]
+      have h01' : ({ it with p0 := lastRec t } : Iv).p0.ts ≤ ({ it with p0 := lastRec t } : Iv).p1.ts :=
+        Int.le_trans hle h01
+      have hstep : add maxRecs t it = addLoop maxRecs 7 (.node (d+1) [(firstRec t).ts] [t] (lastRec t))
+          { it with p0 := lastRec t } := by
+        unfold add
+        rw [addLoop, hd, hb]
+        simp only [hroot]
+      rcases blockAdd_append maxRecs hm2 (d+1) _ { it with p0 := lastRec t } hrwf (by rw [hlr]; exact Int.le_refl _) h01'
+        with ⟨t2, hb2, hwf2, hp2, hf2, _⟩ | ⟨_, hrec2⟩
+      · obtain ⟨t', h1, h2, h3⟩ := addLoop_ok maxRecs 6 (d+1) (.node (d+1) [(firstRec t).ts] [t] (lastRec t)) t2
+          { it with p0 := lastRec t } it.p1 hb2 hwf2
+        refine ⟨t', by rw [hstep]; exact h1, h2, ?_⟩
+        rw [h3, hf2, hp2]
+        simp [firstRec, firstRecL, p1s_node]
+      · rw [records_node _ _ _ _ (by simp)] at hrec2
+        simp at hrec2; omega
+
+/-- corollary: on append-only input the tree's point list is `Points.add` of the old point list -/
+theorem tree_append_refines_add (maxRecs : Nat) (hm : 3 ≤ maxRecs) (t : T) (it : Iv)
+    (hwf : WF maxRecs t) (hao : AppendOnly t it) (h01 : it.p0.ts ≤ it.p1.ts) :
+    ∃ t', add maxRecs t it = some t' ∧ WF maxRecs t' ∧ points t' = Points.add (points t) it := by
+  obtain ⟨t', h1, h2, h3⟩ := tree_append_refines maxRecs hm t it hwf hao h01
+  refine ⟨t', h1, h2, ?_⟩
+  rw [h3]
+  by_cases hp : points t = []
+  · rw [if_pos hp, hp]; rfl
+  · rw [if_neg hp, add_append_case _ it hp (Logrange.ChunkHist.cntLE_eq_length_of_all_le _ _ hao)]
+
+/-! ## (3) look-ups through the tree are look-ups on the flat list -/
+
+/-- `grEq` on the flat list, returning the record: the LAST point with `ts ≤ t` -/
+def gSpec (P : List Pt) (ts : Int) : Option Pt :=
+  if Points.cntLE P ts = 0 then none else some (P.getD (Points.cntLE P ts - 1) zeroPt)
+/-- `less` on the flat list, returning the record: the FIRST point with `ts > t` -/
+def lSpec (P : List Pt) (ts : Int) : Option Pt := (P.drop (Points.cntLE P ts)).head?
+
+theorem gSpec_idx (P : List Pt) (ts : Int) (r : Pt) (h : gSpec P ts = some r) : r.idx = Points.grEqPos P ts := by
+  unfold gSpec at h
+  by_cases h0 : Points.cntLE P ts = 0
+  · simp [h0] at h
+  · obtain ⟨n, hn⟩ : ∃ n, Points.cntLE P ts = n + 1 := ⟨Points.cntLE P ts - 1, by omega⟩
+    simp only [hn, Nat.add_one_ne_zero, if_false, Option.some.injEq, Nat.add_sub_cancel] at h
+    subst h
+    simp only [Points.grEqPos, hn]; rfl
+
+theorem lSpec_idx (P : List Pt) (ts : Int) : (lSpec P ts).map (·.idx) = Points.lessPos P ts := by
+  unfold lSpec Points.lessPos
+  cases P.drop (Points.cntLE P ts) <;> simp
+
+def cnt (l : List Int) (ts : Int) : Nat := (l.takeWhile (fun x => decide (x ≤ ts))).length
+
+theorem cntLE_eq_cnt (R : List Pt) (ts : Int) : Points.cntLE R ts = cnt (R.map (·.ts)) ts := by
+  induction R with
+  | nil => rfl
+  | cons a r ih =>
+    by_cases h : a.ts ≤ ts
+    · rw [cntLE_cons_le h, ih]; simp [cnt, h]
+    · rw [cntLE_cons_gt h]; simp [cnt, h]
+
+theorem cnt_le : ∀ (l : List Int) (ts : Int) (i : Nat) (x : Int), i < cnt l ts → l[i]? = some x → x ≤ ts
+  | [], _, _, _, h, _ => by simp [cnt] at h
+  | a :: r, ts, i, x, h, hx => by
+    by_cases ha : a ≤ ts
+    · cases i with
+      | zero => simp at hx; subst hx; exact ha
+      | succ i' =>
+        simp at hx
+        have : i' < cnt r ts := by simp [cnt, List.takeWhile, ha] at h; exact h
+        exact cnt_le r ts i' x this hx
+    · simp [cnt, List.takeWhile, ha] at h
+
+theorem cnt_gt : ∀ (l : List Int) (ts : Int) (x : Int), l[cnt l ts]? = some x → ¬ x ≤ ts
+  | [], _, _, h => by simp at h
+  | a :: r, ts, x, hx => by
+    by_cases ha : a ≤ ts
+    · have : cnt (a :: r) ts = cnt r ts + 1 := by simp [cnt, List.takeWhile, ha]
+      rw [this] at hx; simp at hx
+      exact cnt_gt r ts x hx
+    · have : cnt (a :: r) ts = 0 := by simp [cnt, List.takeWhile, ha]
+      rw [this] at hx; simp at hx; subst hx; exact ha
+
+theorem grEqL_eq : ∀ (kids : List T) (j : Nat) (ts : Int),
+    grEqL kids j ts = match kids[j]? with | some k => grEq k ts | none => none
+  | [], _, _ => by simp [grEqL]
+  | k :: _, 0, _ => by simp [grEqL]
+  | _ :: ks, j+1, ts => by simpa [grEqL] using grEqL_eq ks j ts
+
+theorem lessL_eq : ∀ (kids : List T) (j : Nat) (ts : Int),
+    lessL kids j ts = match kids[j]? with | some k => less k ts | none => none
+  | [], _, _ => by simp [lessL]
+  | k :: _, 0, _ => by simp [lessL]
+  | _ :: ks, j+1, ts => by simpa [lessL] using lessL_eq ks j ts
+
+/-- under contiguity the timestamps of an upper block's records are: first ts of the subtree, then the last ts of
+every child -/
+theorem keys_last_eq : ∀ (kids : List T) (last : Pt), kids ≠ [] → Contig kids → kids.getLast?.map lastRec = some last →
+    kids.map (fun k => (firstRec k).ts) ++ [last.ts] = (firstRecL kids).ts :: kids.map (fun k => (lastRec k).ts)
+  | [], _, h, _, _ => absurd rfl h
+  | [k0], last, _, _, hl => by
+    simp at hl; simp [firstRecL, hl]
+  | k0 :: k1 :: r, last, _, hc, hl => by
+    have ih := keys_last_eq (k1 :: r) last (by simp) hc.2 (by simpa [List.getLast?_cons_cons] using hl)
+    simp only [List.map_cons, List.cons_append, firstRecL] at ih ⊢
+    rw [ih, hc.1]
+
+theorem decomp (m d : Nat) : ∀ (kids : List T) (j : Nat) (k : T), (∀ x ∈ kids, WFd m d x) → Contig kids → kids[j]? = some k →
+    ∃ A B, firstRecL kids :: kids.flatMap p1s = A ++ (firstRec k :: p1s k) ++ B
+  | [], _, _, _, _, h => by simp at h
+  | k0 :: rest, 0, k, _, _, h => by
+    simp at h; subst h
+    exact ⟨[], rest.flatMap p1s, by simp [firstRecL]⟩
+  | [k0], j+1, k, _, _, h => by simp at h
+  | k0 :: k1 :: r, j+1, k, hw, hc, h => by
+    obtain ⟨A, B, e⟩ := decomp m d (k1 :: r) j k (fun x hx => hw x (List.mem_cons_of_mem _ hx)) hc.2 (by simpa using h)
+    have hl := wfd_p1s_last m d k0 (hw k0 (by simp))
+    obtain ⟨X, hX⟩ : ∃ X, p1s k0 = X ++ [lastRec k0] := by
+      have hne : p1s k0 ≠ [] := by intro e; rw [e] at hl; simp at hl
+      refine ⟨(p1s k0).dropLast, ?_⟩
+      have := List.dropLast_concat_getLast hne
+      rw [List.getLast?_eq_some_getLast hne] at hl
+      simp only [Option.some.injEq] at hl
+      rw [← hl]; exact this.symm
+    refine ⟨firstRec k0 :: X ++ A, B, ?_⟩
+    simp only [firstRecL] at e
+    rw [List.flatMap_cons, hX, hc.1]
+    simp only [firstRecL, List.cons_append, List.append_assoc, List.nil_append]
+    rw [e]; simp
+
+theorem sorted_prefix_le : ∀ (A : List Pt) (q : Pt) (X : List Pt), SortedTs (A ++ q :: X) → ∀ a ∈ A, a.ts ≤ q.ts
+  | [], _, _, _, a, ha => by simp at ha
+  | a0 :: A', q, X, hs, a, ha => by
+    have hs' : SortedTs (a0 :: (A' ++ q :: X)) := hs
+    cases ha with
+    | head => exact sorted_head_le _ _ hs' q (by simp)
+    | tail _ h' =>
+      have : SortedTs (A' ++ q :: X) := by
+        cases hA : A' ++ q :: X with
+        | nil => trivial
+        | cons b r => rw [hA] at hs'; exact hs'.2
+      exact sorted_prefix_le A' q X this a h'
+
+theorem cntLE_append_all : ∀ (A X : List Pt) (ts : Int), (∀ a ∈ A, a.ts ≤ ts) → Points.cntLE (A ++ X) ts = A.length + Points.cntLE X ts
+  | [], X, ts, _ => by simp
+  | a :: A', X, ts, h => by
+    have := cntLE_append_all A' X ts (fun x hx => h x (List.mem_cons_of_mem _ hx))
+    rw [List.cons_append, cntLE_cons_le (h a (by simp)), this]; simp; omega
+
+theorem cntLE_append_lt (Q B : List Pt) (ts : Int) (h : Points.cntLE Q ts < Q.length) :
+    Points.cntLE (Q ++ B) ts = Points.cntLE Q ts := by
+  unfold Points.cntLE at h ⊢
+  rw [List.takeWhile_append]
+  have : ¬ (List.takeWhile (fun p => decide (p.ts ≤ ts)) Q).length = Q.length := by omega
+  rw [if_neg this]
+
+/-- a ts-sorted list `A ++ Q ++ B` whose middle part starts at or below `ts` and ends above it is searched inside `Q` -/
+theorem spec_sub (A Q B : List Pt) (ts : Int) (q0 : Pt) (Q' : List Pt) (hQ : Q = q0 :: Q')
+    (hs : SortedTs (A ++ Q ++ B)) (h0 : q0.ts ≤ ts) (hl : ¬ (Points.lastD Q).ts ≤ ts) :
+    gSpec (A ++ Q ++ B) ts = gSpec Q ts ∧ lSpec (A ++ Q ++ B) ts = lSpec Q ts := by
+  have hA : ∀ a ∈ A, a.ts ≤ ts := by
+    intro a ha
+    have : SortedTs (A ++ q0 :: (Q' ++ B)) := by simpa [hQ] using hs
+    exact Int.le_trans (sorted_prefix_le A q0 _ this a ha) h0
+  have hlt : Points.cntLE Q ts < Q.length := by
+    have := cntLE_le_length Q ts
+    by_cases e : Points.cntLE Q ts = Q.length
+    · exact absurd (all_le_of_cntLE_eq_length ts Q e _ (lastD_mem Q (by simp [hQ]))) hl
+    · omega
+  have hpos : 1 ≤ Points.cntLE Q ts := by rw [hQ, cntLE_cons_le h0]; omega
+  have hc : Points.cntLE (A ++ Q ++ B) ts = A.length + Points.cntLE Q ts := by
+    rw [List.append_assoc, cntLE_append_all A _ ts hA, cntLE_append_lt Q B ts hlt]
+  constructor
+  · unfold gSpec
+    rw [hc]
+    have e1 : ¬ A.length + Points.cntLE Q ts = 0 := by omega
+    have e2 : ¬ Points.cntLE Q ts = 0 := by omega
+    rw [if_neg e1, if_neg e2]
+    have e3 : A.length + Points.cntLE Q ts - 1 = A.length + (Points.cntLE Q ts - 1) := by omega
+    rw [e3]
+    simp only [List.getD_eq_getElem?_getD, List.append_assoc]
+    rw [List.getElem?_append_right (by omega)]
+    have e4 : A.length + (Points.cntLE Q ts - 1) - A.length = Points.cntLE Q ts - 1 := by omega
+    rw [e4, List.getElem?_append_left (by omega)]
+  · unfold lSpec
+    rw [hc, List.append_assoc, List.drop_append]
+    have e1 : List.drop (A.length + Points.cntLE Q ts) A = [] := List.drop_eq_nil_of_le (by omega)
+    have e2 : A.length + Points.cntLE Q ts - A.length = Points.cntLE Q ts := by omega
+    rw [e1, e2, List.nil_append, List.drop_append]
+    have hne : List.drop (Points.cntLE Q ts) Q ≠ [] := by
+      intro e; have := congrArg List.length e; simp at this; omega
+    cases hd : List.drop (Points.cntLE Q ts) Q with
+    | nil => exact absurd hd hne
+    | cons x r => simp
+
+
+theorem leaf_grEq_exact (recs : List Pt) (ts : Int) (hnil : recs ≠ []) : grEq (.leaf recs) ts = gSpec recs ts := by
+  have hcl := cntLE_le_length recs ts
+  have hl : recs.length ≠ 0 := by simpa using hnil
+  have hI := leaf_findIdx recs ts hnil
+  have hints := leaf_intervals' recs hnil
+  unfold gSpec
+  generalize hc : Points.cntLE recs ts = c at hcl hI
+  simp only [grEq, hI, hints]
+  by_cases h0 : c = 0
+  · subst h0; simp
+  · have hpos : ¬ ((c : Int) - 1 < 0) := by omega
+    rw [if_neg hpos, if_neg h0]
+    by_cases hfull : c = recs.length
+    · have e1 : (c : Int) - 1 = ((recs.length - 1 : Nat) : Int) := by omega
+      rw [if_pos e1, hfull, getD_pred_eq_getLastD]; rfl
+    · have hne : ¬ ((c : Int) - 1 = ((recs.length - 1 : Nat) : Int)) := by omega
+      have : ((c : Int) - 1).toNat = c - 1 := by omega
+      rw [if_neg hne, this]
+
+theorem leaf_less_exact (recs : List Pt) (ts : Int) (hnil : recs ≠ []) : less (.leaf recs) ts = lSpec recs ts := by
+  have hcl := cntLE_le_length recs ts
+  have hl : recs.length ≠ 0 := by simpa using hnil
+  have hI := leaf_findIdx recs ts hnil
+  have hints := leaf_intervals' recs hnil
+  unfold lSpec
+  generalize hc : Points.cntLE recs ts = c at hcl hI
+  simp only [less, hI, hints]
+  by_cases h0 : c = 0
+  · subst h0
+    cases recs with
+    | nil => exact absurd rfl hnil
+    | cons a r => simp [firstRec]
+  · have hpos : ¬ ((c : Int) - 1 < 0) := by omega
+    rw [if_neg hpos]
+    by_cases hfull : c = recs.length
+    · have e1 : (c : Int) - 1 = ((recs.length - 1 : Nat) : Int) := by omega
+      rw [if_pos e1, hfull]; simp
+    · have hne : ¬ ((c : Int) - 1 = ((recs.length - 1 : Nat) : Int)) := by omega
+      rw [if_neg hne]
+      have hlt : c < recs.length := by omega
+      have : ((c : Int) - 1).toNat + 1 = c := by omega
+      rw [this, List.drop_eq_getElem_cons hlt]
+      simp [List.getD_eq_getElem?_getD, List.getElem?_eq_getElem hlt]
+
+theorem lookups_wfd (m : Nat) : ∀ (d : Nat) (t : T) (ts : Int), WFd m d t →
+    grEq t ts = gSpec (points t) ts ∧ less t ts = lSpec (points t) ts
+  | 0, .leaf recs, ts, h => by
+    have hp := wfd_points m 0 _ h
+    simp only [WFd] at h
+    have hne : recs ≠ [] := by intro e; subst e; simp at h
+    have : points (.leaf recs) = recs := by
+      rw [hp, p1s_leaf]
+      cases recs with
+      | nil => exact absurd rfl hne
+      | cons a r => rfl
+    rw [this]
+    exact ⟨leaf_grEq_exact recs ts hne, leaf_less_exact recs ts hne⟩
+  | 0, .node .., _, h => by simp [WFd] at h
+  | d+1, .leaf _, _, h => by simp [WFd] at h
+  | d+1, .node l keys kids last, ts, h => by
+    have hWF := h
+    simp only [WFd] at h
+    obtain ⟨_, hne, _, hk, hkeys, hlast, hcon, _, _⟩ := h
+    have hkn : keys ≠ [] := by rw [hkeys]; simpa using hne
+    have hkl : keys.length = kids.length := by rw [hkeys]; simp
+    have hfr : firstRec (.node l keys kids last) = firstRecL kids := by
+      match keys, hkn with
+      | _ :: _, _ => rfl
+    have hP : points (.node l keys kids last) = firstRecL kids :: kids.flatMap p1s := by
+      rw [wfd_points m (d+1) _ hWF, hfr, p1s_node]
+    have hsort : SortedTs (firstRecL kids :: kids.flatMap p1s) := by
+      have := wfd_sorted m (d+1) _ hWF
+      rwa [hfr, p1s_node] at this
+    have hlastD : Points.lastD (firstRecL kids :: kids.flatMap p1s) = lastRec (.node l keys kids last) := by
+      have := wfd_lastD m (d+1) _ hWF
+      rwa [hfr, p1s_node] at this
+    have hlr : last = lastRec (.node l keys kids last) := by
+      have := wfd_tbi m (d+1) _ hWF
+      simp only [theBlockInterval, Iv.mk.injEq] at this
+      exact this.2
+    have hL1 : (recsOf (.node l keys kids last)).map (·.ts) = keys ++ [last.ts] := by
+      rw [recsOf_node l keys kids last hkn]; simp [List.map_map, Function.comp_def]
+    have hL2 : keys ++ [last.ts] = (firstRecL kids).ts :: kids.map (fun k => (lastRec k).ts) := by
+      rw [hkeys]; exact keys_last_eq kids last hne hcon hlast
+    have hcnt : ITree.cntLE (.node l keys kids last) ts = cnt (keys ++ [last.ts]) ts := by
+      unfold ITree.cntLE; rw [cntLE_eq_cnt, hL1]
+    have hcl : cnt (keys ++ [last.ts]) ts ≤ keys.length + 1 := by
+      have := cntLE_le_length (recsOf (.node l keys kids last)) ts
+      rw [cntLE_eq_cnt, hL1, recsOf_node l keys kids last hkn] at this
+      simpa using this
+    have hI : findIntervalIdx (.node l keys kids last) ts = (cnt (keys ++ [last.ts]) ts : Int) - 1 := by
+      unfold findIntervalIdx
+      rw [records_node l keys kids last hkn, hcnt]; simp
+    have hints := intervals_node l keys kids last hkn
+    rw [hP]
+    generalize hc : cnt (keys ++ [last.ts]) ts = c at hcl hI
+    have hc2 : cnt ((firstRecL kids).ts :: kids.map (fun k => (lastRec k).ts)) ts = c := by rw [← hL2]; exact hc
+    simp only [grEq, less, hI, hints]
+    by_cases h0 : c = 0
+    · subst h0
+      have hgt : ¬ (firstRecL kids).ts ≤ ts := by
+        apply cnt_gt ((firstRecL kids).ts :: kids.map (fun k => (lastRec k).ts)) ts
+        rw [hc2]; simp
+      have hc0 : Points.cntLE (firstRecL kids :: kids.flatMap p1s) ts = 0 := cntLE_cons_gt hgt
+      simp [gSpec, lSpec, hc0, hfr]
+    · have hpos : ¬ ((c : Int) - 1 < 0) := by omega
+      rw [if_neg hpos, if_neg hpos]
+      by_cases hfull : c = keys.length + 1
+      · have e1 : (c : Int) - 1 = ((keys.length : Nat) : Int) := by omega
+        rw [if_pos e1, if_pos e1]
+        have hle : last.ts ≤ ts := by
+          apply cnt_le (keys ++ [last.ts]) ts keys.length last.ts (by omega)
+          simp
+        have hall : Points.cntLE (firstRecL kids :: kids.flatMap p1s) ts = (firstRecL kids :: kids.flatMap p1s).length := by
+          apply Logrange.ChunkHist.cntLE_eq_length_of_all_le
+          intro p hp
+          refine Int.le_trans (sorted_le_last _ hsort p hp) ?_
+          rw [hlastD, ← hlr]; exact hle
+        constructor
+        · unfold gSpec
+          rw [hall, if_neg (by simp), getD_pred_eq_getLastD]
+          exact congrArg some hlastD.symm
+        · unfold lSpec
+          rw [hall]; simp
+      · have hne1 : ¬ ((c : Int) - 1 = ((keys.length : Nat) : Int)) := by omega
+        rw [if_neg hne1, if_neg hne1]
+        have hj : ((c : Int) - 1).toNat = c - 1 := by omega
+        have hjlt : c - 1 < kids.length := by omega
+        rw [hj, grEqL_eq, lessL_eq]
+        have hkj : kids[c - 1]? = some (kids[c - 1]) := List.getElem?_eq_getElem hjlt
+        generalize kids[c - 1] = kj at hkj
+        rw [hkj]
+        have hkjwf : WFd m d kj := hk kj (List.mem_of_getElem? hkj)
+        obtain ⟨ihg, ihl⟩ := lookups_wfd m d kj ts hkjwf
+        obtain ⟨A, B, hdec⟩ := decomp m d kids (c - 1) kj hk hcon hkj
+        have h0' : (firstRec kj).ts ≤ ts := by
+          apply cnt_le (keys ++ [last.ts]) ts (c - 1) _ (by omega)
+          rw [List.getElem?_append_left (by omega), hkeys, List.getElem?_map, hkj]; rfl
+        have hl' : ¬ (Points.lastD (firstRec kj :: p1s kj)).ts ≤ ts := by
+          rw [wfd_lastD m d kj hkjwf]
+          apply cnt_gt ((firstRecL kids).ts :: kids.map (fun k => (lastRec k).ts)) ts
+          rw [hc2]
+          have : c = (c - 1) + 1 := by omega
+          rw [this, List.getElem?_cons_succ, List.getElem?_map]
+          simp only [hkj]; rfl
+        have hsub := spec_sub A (firstRec kj :: p1s kj) B ts (firstRec kj) (p1s kj) rfl (by rw [← hdec]; exact hsort) h0' hl'
+        rw [hdec, hsub.1, hsub.2]
+        dsimp only
+        rw [ihg, ihl, wfd_points m d kj hkjwf]
+        exact ⟨rfl, rfl⟩
+
+
+/-- **(3)** look-ups through a well-formed tree are the look-ups on its flat point list: `grEq` fails
+(`errAllMatches`) exactly when no point has `ts ≤ t` and otherwise returns the position of the LAST point with
+`ts ≤ t`; `less` returns the position of the FIRST point with `ts > t` and fails exactly when there is none.
+(For the empty index `leaf []` the real `grEq` returns the zero record instead of `errAllMatches`: position 0, as
+`grEqPos`.) Equal timestamps across a block boundary need no side condition. -/
+theorem tree_lookup_eq_points (maxRecs : Nat) (t : T) (ts : Int) (hwf : WF maxRecs t) :
+    (t ≠ .leaf [] → (grEq t ts = none ↔ Points.cntLE (points t) ts = 0)) ∧
+    (∀ r, grEq t ts = some r → r.idx = Points.grEqPos (points t) ts) ∧
+    (less t ts).map (·.idx) = Points.lessPos (points t) ts ∧
+    (less t ts = none ↔ Points.cntLE (points t) ts = (points t).length) := by
+  have hless : ∀ (o : Option Pt), o.map (·.idx) = Points.lessPos (points t) ts →
+      (o = none ↔ Points.cntLE (points t) ts = (points t).length) := by
+    intro o ho
+    rw [← lessPos_none_iff, ← ho]
+    cases o <;> simp
+  rcases hwf with rfl | hwf
+  · have hp : points (.leaf []) = [] := rfl
+    have hl := leaf_less [] ts
+    rw [hp]
+    refine ⟨fun h => absurd rfl h, (leaf_grEq [] ts).2, hl, ?_⟩
+    have := hless _ (by rw [hp]; exact hl)
+    rwa [hp] at this
+  · obtain ⟨hg, hl⟩ := lookups_wfd maxRecs (level t) t ts hwf
+    have hl' : (less t ts).map (·.idx) = Points.lessPos (points t) ts := by rw [hl, lSpec_idx]
+    refine ⟨fun _ => ?_, ?_, hl', hless _ hl'⟩
+    · rw [hg]; unfold gSpec
+      by_cases h0 : Points.cntLE (points t) ts = 0 <;> simp [h0]
+    · intro r hr
+      rw [hg] at hr
+      exact gSpec_idx _ _ _ hr
+
+/-- the records themselves, not only their positions -/
+theorem tree_lookup_records (maxRecs : Nat) (t : T) (ts : Int) (hwf : WF maxRecs t) (hne : t ≠ .leaf []) :
+    grEq t ts = gSpec (points t) ts ∧ less t ts = lSpec (points t) ts := by
+  rcases hwf with rfl | hwf
+  · exact absurd rfl hne
+  · exact lookups_wfd maxRecs (level t) t ts hwf
+
+/-! ## (4) evaluated examples: `maxRecs = 4`, an append-only sequence reaching level 2 -/
+
+/-- interval `i` of the example stream: timestamps `[10i+2, 10i+9]`, positions `[5i, 5i+4]` -/
+def exIv (i : Nat) : Iv := ⟨⟨10 * i + 2, 5 * i⟩, ⟨10 * i + 9, 5 * i + 4⟩⟩
+
+def addAll (m : Nat) (t : T) (its : List Iv) : Option T := its.foldl (fun acc it => acc.bind (fun t => add m t it)) (some t)
+
+def exTree (n : Nat) : Option T := addAll 4 (.leaf []) ((List.range n).map exIv)
+def exFlat (n : Nat) : List Pt := ((List.range n).map exIv).foldl Points.add []
+
+example : (exTree 3).map rootLevel = some 0 := by decide +kernel
+example : (exTree 4).map rootLevel = some 1 := by decide +kernel
+example : (exTree 9).map rootLevel = some 1 := by decide +kernel
+example : (exTree 10).map rootLevel = some 2 := by decide +kernel
+example : (exTree 12).map points = some (exFlat 12) := by decide +kernel
+example : (exTree 12).map points = some
+    [⟨2, 0⟩, ⟨9, 4⟩, ⟨19, 9⟩, ⟨29, 14⟩, ⟨39, 19⟩, ⟨49, 24⟩, ⟨59, 29⟩, ⟨69, 34⟩, ⟨79, 39⟩, ⟨89, 44⟩, ⟨99, 49⟩, ⟨109, 54⟩,
+     ⟨119, 59⟩] := by decide +kernel
+example : ∀ n ∈ List.range 30, (exTree n).map points = some (exFlat n) := by decide +kernel
+/-- look-ups through the level-2 tree = look-ups on the flat list, at every timestamp around the indexed range -/
+example : ∀ ts ∈ (List.range 130).map (fun (n : Nat) => (n : Int) - 3),
+    (exTree 12).map (fun t => ((grEq t ts).map (·.idx), (less t ts).map (·.idx))) =
+      some (if Points.cntLE (exFlat 12) ts = 0 then none else some (Points.grEqPos (exFlat 12) ts), Points.lessPos (exFlat 12) ts) := by
+  decide +kernel
+
+/-! ## whole append-only streams -/
+
+/-- an append-only stream relative to the points indexed so far: every interval is ordered and starts at or above
+every indexed timestamp -/
+def Stream : List Pt → List Iv → Prop
+  | _, [] => True
+  | P, it :: r => (∀ p ∈ P, p.ts ≤ it.p0.ts) ∧ it.p0.ts ≤ it.p1.ts ∧ Stream (Points.add P it) r
+
+theorem addAll_none (m : Nat) : ∀ (its : List Iv), its.foldl (fun acc it => acc.bind (fun t => add m t it)) none = none
+  | [] => rfl
+  | _ :: r => by simpa [List.foldl] using addAll_none m r
+
+theorem addAll_cons (m : Nat) (t : T) (it : Iv) (r : List Iv) :
+    addAll m t (it :: r) = match add m t it with | some t' => addAll m t' r | none => none := by
+  unfold addAll
+  simp only [List.foldl, Option.bind_some]
+  cases add m t it with
+  | none => exact addAll_none m r
+  | some t' => rfl
+
+/-- every append-only stream is indexed without error, the tree stays well-formed (so `WF` is the invariant of all
+trees reachable by monotone writes — in particular it is satisfiable at every depth), and its point list is the flat
+list built by `Points.add` -/
+theorem tree_append_stream (maxRecs : Nat) (hm : 3 ≤ maxRecs) : ∀ (its : List Iv) (t : T), WF maxRecs t →
+    Stream (points t) its →
+    ∃ t', addAll maxRecs t its = some t' ∧ WF maxRecs t' ∧ points t' = its.foldl Points.add (points t)
+  | [], t, hwf, _ => ⟨t, rfl, hwf, rfl⟩
+  | it :: r, t, hwf, hs => by
+    obtain ⟨t1, h1, h2, h3⟩ := tree_append_refines_add maxRecs hm t it hwf hs.1 hs.2.1
+    obtain ⟨t', h4, h5, h6⟩ := tree_append_stream maxRecs hm r t1 h2 (by rw [h3]; exact hs.2.2)
+    refine ⟨t', ?_, h5, ?_⟩
+    · rw [addAll_cons, h1]; exact h4
+    · rw [h6, h3]; rfl
 
 end Logrange.ITree
